@@ -380,7 +380,10 @@ def fatal_in_code_under_test(output):
         if "/src/" in path and "/go" in path.split("/src/")[0] or "/pkg/mod/" in path:
             continue   # the Go runtime / standard library / third-party modules
         inside = path.startswith(os.path.realpath(REPO) + "/") or path.startswith(REPO + "/")
-        if inside and "/zz_" not in path and "/internal/zzverif/" not in path:
+        harness = "/zz_" in path or "/internal/zzverif/" in path or path.endswith("/verif_on.go")
+        if inside and harness and "stack overflow" in m.group(1):
+            continue   # the stack ran out inside a hook: what matters is the recursion that filled it
+        if inside and not harness:
             fn = lines[i - 1].strip().split("(")[0] if i else ""
             return "%s in %s (%s)" % (m.group(1)[:120], fn.rsplit("/", 1)[-1], os.path.relpath(path, REPO))
         return None
